@@ -398,18 +398,27 @@ class ImportURI(scoping.ModelLoader):
         if ret:
             return ret
 
-        # 2) do we have loaded models?
-        for m in model_repository.local_models:
-            ret = self.scope_provider(m, attr, obj_ref)
-            if ret:
-                return ret
-
-        # 3) Use builtin models as a fallback if provided
-        if model._tx_metamodel.builtin_models:
-            for m in model._tx_metamodel.builtin_models:
+        try:
+            # 2) do we have loaded models?
+            for m in model_repository.local_models:
                 ret = self.scope_provider(m, attr, obj_ref)
                 if ret:
                     return ret
+
+            # 3) Use builtin models as a fallback if provided
+            if model._tx_metamodel.builtin_models:
+                for m in model._tx_metamodel.builtin_models:
+                    ret = self.scope_provider(m, attr, obj_ref)
+                    if ret:
+                        return ret
+        except TextXSemanticError as e:
+            # The underlying provider located the error in the searched
+            # model. The offending text is the reference in this model.
+            from textx.scoping.tools import get_parser
+
+            e.line, e.col = get_parser(obj).pos_to_linecol(obj_ref.position)
+            e.filename = model._tx_filename
+            raise
         return None
 
 
